@@ -6,7 +6,8 @@
 (* Mga's actions in order; clauses:                                        *)
 (*   chain      a stage's input is not the previous stage's output (bits)  *)
 (*   equals_composition  the pipeline's return differs from the stepwise   *)
-(*              result (after the documented 4-decimal height rounding)    *)
+(*              result by more than one unit of the 4-decimal output       *)
+(*              rounding                                                    *)
 (*   height_rule, vcv_rule, natural_zone                                   *)
 (*   helmert    the conform7 stage against Helmert.tla (1 um)              *)
 (*   vcv_symmetric / vcv_psd / vcv_value (rotation, J Q J^T with the       *)
@@ -52,6 +53,15 @@ ExpectedVcv(ev) ==
 VcvValueOK(ev) == Let(ExpectedVcv(ev), LAMBDA e : Let(MatJ(ev.vout), LAMBDA o :
                       \A i \in 1..3 : \A j \in 1..3 : Within(o[i][j], e[i][j], Add(Mul(Dec(10, 3), Tr3(e)), Dec(100, 5)))))   \* 1e-9 trace + 1e-18
 
+\* "equals the stepwise composition": the same zone, and easting / northing / height equal up to one unit of the documented output
+\* rounding (4 decimals: an implementation that orders its floating-point operations differently may round the last digit the other
+\* way - still the same composition); covariances equal to 1e-9 of the trace
+Unit4 == Add(Dec(1, 1), Dec(1, 3))          \* 1e-4 + 1e-12
+SameAsSteps(ev) == /\ ev.ret.zone = ev.step.zone
+                   /\ Within(J(ev.ret.e), J(ev.step.e), Unit4) /\ Within(J(ev.ret.n), J(ev.step.n), Unit4)
+                   /\ Within(J(ev.ret.h), J(ev.step.h), Unit4)
+SameVcv(a, b) == \A i \in 1..3 : \A j \in 1..3 : Within(a[i][j], b[i][j], Add(Mul(Dec(10, 3), Tr3(b)), Dec(100, 5)))
+
 TraceInit == /\ tid \in 1..Len(Traces) /\ l = 1 /\ dead = FALSE /\ prevhex = ""
              /\ dir = Traces[tid].dir /\ ht = Traces[tid].ht /\ vcv = Traces[tid].vcv /\ pc = 1 /\ done = <<>>
              /\ htIn = "unset" /\ vcvForm = (IF Traces[tid].vcv = "none" THEN "none" ELSE "local")
@@ -82,12 +92,12 @@ Pipeline == /\ ~dead /\ l <= Len(T.ev) /\ T.ev[l].k = "pipeline"
             /\ LET ev == T.ev[l] IN
                \E f \in {IF ev.exc # "" THEN "raised"
                          ELSE IF ~Finished THEN "stage_order"
-                         ELSE IF ev.rethex # ev.stephex THEN "equals_composition"
+                         ELSE IF ~SameAsSteps(ev) THEN "equals_composition"
                          ELSE IF T.ht = "absent" /\ ~IsZero(J(ev.htout)) THEN "height_rule"
                          ELSE IF (ev.vout # <<>>) # (VcvOut # "none") THEN "vcv_rule"
                          ELSE IF ev.vout # <<>> /\ ev.vcv33 /\ ~Symm(MatJ(ev.vout)) THEN "vcv_symmetric"
                          ELSE IF ev.vout # <<>> /\ ev.vcv33 /\ ~PSD(MatJ(ev.vout)) THEN "vcv_psd"
-                         ELSE IF ev.vout # <<>> /\ ev.vrethex # ev.vstephex THEN "vcv_equals_composition"
+                         ELSE IF ev.vout # <<>> /\ ev.vcv33 /\ ev.vstep # <<>> /\ ~SameVcv(MatJ(ev.vout), MatJ(ev.vstep)) THEN "vcv_equals_composition"
                          ELSE IF ev.vout # <<>> /\ ev.vcv33 /\ ~VcvValueOK(ev) THEN "vcv_value"
                          ELSE ""} :
                   /\ (IF f = "" THEN TRUE ELSE Report("pipeline." \o f))
